@@ -601,6 +601,15 @@ func c06Run(r *vkit.Run) {
 		}
 		visit(c06Input{Line: "!!!", Pre: true, Stage: pat, Kind: "nomatch", Parser: "regexp"})
 	}
+	// expressions whose overall match depends on preference order (leftmost-first, not leftmost-longest): an alternation
+	// whose earlier branch is a prefix of a later one, and lazy quantifiers, in tail position
+	for _, pat := range []string{`level=(?P<a>warn|warning)`, `id=(?P<b>\d+?)`, `(?P<a>x|xy)(?P<z>y?)`, `(?P<a>\w*?)`} {
+		for _, line := range []string{"level=warning id=12345", "xy level=warn", "id=7", "xyy"} {
+			for _, pre := range []bool{false, true} {
+				visit(c06Input{Line: line, Pre: pre, Stage: pat, Kind: "wellformed", Parser: "regexp"})
+			}
+		}
+	}
 	// pattern: lines constructed from capture values free of the next delimiter
 	vals := []string{"v", "", "two words", "é", "5", "a-b", "x -y", "- ", "a > b"}
 	for _, v1 := range vals {
@@ -623,7 +632,7 @@ func c06Run(r *vkit.Run) {
 	}
 	// unpack
 	for _, entry := range []string{`"line"`, `""`, `"two\nlines"`, `"{\"inner\":1}"`, ""} {
-		for _, extra := range []string{"", `"k":"v"`, `"k":"v","a":"new"`, `"n":5`, `"o":{"x":1},"k":"v"`, `"b":null`} {
+		for _, extra := range []string{"", `"k":"v"`, `"k":"v","a":"new"`, `"n":5`, `"o":{"x":1},"k":"v"`, `"b":null`, `"k8s.pod":"p","k":"v"`, `"a.b":"dot"`} {
 			var parts []string
 			if extra != "" {
 				parts = append(parts, extra)
